@@ -6,6 +6,28 @@ its preservation by every operation.
 namespace FxVerif.Proofs.C05
 open FxVerif.Gen.C05 FxVerif.Model.C05 List
 
+/-! ## the shapes of the source the model is parametrised by, as they are now -/
+
+/-- a refunded outgoing bridge call pays the record's refund address (regenerated: `callRefundReceiver`) -/
+@[simp] theorem callRefundTo_eq (c : Call) : callRefundTo c = c.refund := by
+  have : callRefundReceiver = .refund := by decide
+  simp [callRefundTo, this]
+
+/-- applying a bridge-call result: success deletes the record and logs the execution, failure refunds and deletes it
+(regenerated: `resultRefundsOn…`, `resultDeletesOn…`) -/
+theorem doExec_eq (s : State) (n : Nat) : doExec s n = doExecStd s n := by
+  have h1 : resultRefundsOnFailure = true := by decide
+  have h2 : resultRefundsOnSuccess = false := by decide
+  have h3 : resultDeletesOnFailure = true := by decide
+  have h4 : resultDeletesOnSuccess = true := by decide
+  unfold doExec doExecStd
+  split
+  · rfl
+  · split
+    · rfl
+    · rename_i p _ _ c _
+      cases hp : p.2.2 <;> simp [h1, h2, h3, h4]
+
 /-! ## containers -/
 
 theorem insertDesc_perm (x : Tx) (l : List Tx) : (insertDesc x l).Perm (x :: l) := by
@@ -306,8 +328,26 @@ theorem inv_executeBatch {s : State} (hi : Inv s) (b : Batch) (hb : b ∈ s.batc
     omega
   · simp only [allCallIds, callIds, settledCallIds_append, settledCallIds_exec, append_nil]
 
+/-- with the call order `TryAttestation` has in the source now, an observation is: store nonce and heights, handle the
+event in its cache context, cancel timed-out batches, refund timed-out bridge calls -/
+theorem doObserve_eq (s : State) (h : Nat) (ev : Ev) : doObserve s h ev = doObserveStd s h ev := by
+  have ho : tryAttestationOrder = ["SetLastObservedEventNonce", "SetLastObservedBlockHeight", "processAttestation",
+      "cleanupTimedOutBatches", "cleanupTimeOutBridgeCall"] := by decide
+  unfold doObserve doObserveStd
+  rw [ho]
+  simp only [attSteps, attStep, String.reduceEq, if_true, if_false]
+  cases handleEvent { s with eventNonce := s.eventNonce + 1, obsExt := h, obsFx := s.fxHeight } ev with
+  | none => rfl
+  | some s2 =>
+    rfl
+
+theorem endBlock_eq (s : State) : endBlock s = s := by
+  have : endBlockerCleanups = [] := by decide
+  simp [endBlock, this]
+
 theorem inv_observe {s : State} (hi : Inv s) (h : Nat) (ev : Ev) : Inv (doObserve s h ev).1 := by
-  unfold doObserve
+  rw [doObserve_eq]
+  unfold doObserveStd
   simp only
   have hi1 : Inv { s with eventNonce := s.eventNonce + 1, obsExt := h, obsFx := s.fxHeight } :=
     ⟨hi.tx, hi.call, hi.txPos, hi.callPos⟩
@@ -334,7 +374,8 @@ theorem inv_refundCall {s : State} (c : Call)
     omega
 
 theorem inv_exec {s : State} (hi : Inv s) (n : Nat) : Inv (doExec s n).1 := by
-  unfold doExec
+  rw [doExec_eq]
+  unfold doExecStd
   split
   · exact hi
   · rename_i p hp
@@ -370,7 +411,9 @@ theorem inv_step {s : State} (hi : Inv s) (op : Op) : Inv (step s op).1 := by
     split
     · exact hi
     · exact ⟨hi.tx, hi.call, hi.txPos, hi.callPos⟩
-  | block n => exact ⟨hi.tx, hi.call, hi.txPos, hi.callPos⟩
+  | block n =>
+    simp only [step, endBlock_eq]
+    exact ⟨hi.tx, hi.call, hi.txPos, hi.callPos⟩
 
 theorem inv_init {s : State} (h : IsInit s) : Inv s := by
   obtain ⟨h1, _, h3, h4, h5, h6, _, h8, _⟩ := h
@@ -459,13 +502,13 @@ theorem settled_grows (s : State) (op : Op) : ∃ l, (step s op).1.settled = s.s
   | reqBatch t mf bf fr => simp only [step]; unfold doReqBatch; simp only; (repeat' split) <;> exact ⟨[], by simp⟩
   | bridgeCall a r to d m cs => simp only [step]; unfold doBridgeCall; simp only; (repeat' split) <;> exact ⟨[], by simp⟩
   | setParams p => simp only [step]; (repeat' split) <;> exact ⟨[], by simp⟩
-  | block n => exact ⟨[], by simp [step]⟩
+  | block n => exact ⟨[], by simp [step, endBlock_eq]⟩
   | exec n =>
-    simp only [step]; unfold doExec
+    simp only [step]; rw [doExec_eq]; unfold doExecStd
     repeat' split
     all_goals first | (refine ⟨[], ?_⟩; simp; done) | exact ⟨_, rfl⟩ | (refine ⟨_, ?_⟩; simp [refundCall]; rfl)
   | observe h ev =>
-    simp only [step]; unfold doObserve
+    simp only [step]; rw [doObserve_eq]; unfold doObserveStd
     simp only
     cases ev with
     | other => simp only [handleEvent]; exact cleanup_settled _
